@@ -17,6 +17,7 @@ import (
 	"google.golang.org/protobuf/types/known/fieldmaskpb"
 
 	"github.com/smart-core-os/sc-api/go/traits"
+	"github.com/smart-core-os/sc-golang/pkg/cmp"
 	"github.com/smart-core-os/sc-golang/pkg/resource"
 	"github.com/smart-core-os/sc-golang/pkg/trait"
 	"github.com/smart-core-os/sc-golang/pkg/trait/electricpb"
@@ -187,9 +188,17 @@ var cat = lib.Catalogue()
 
 func tmsg(i int) *lib.T { return proto.Clone(cat[i]).(*lib.T) }
 
-func valueSys() *sys {
-	v := resource.NewValue(resource.WithInitialValue(tmsg(12)))
-	s := &sys{name: "Value"}
+func valueSys() *sys { return valueSysWith("Value") }
+
+// the same register with an equivalence configured (as the fan speed, energy storage and electric models have):
+// subscriptions then remember what they sent last
+func valueEqSys() *sys {
+	return valueSysWith("Value(equivalence)", resource.WithMessageEquivalence(cmp.Equal()))
+}
+
+func valueSysWith(name string, opts ...resource.Option) *sys {
+	v := resource.NewValue(append([]resource.Option{resource.WithInitialValue(tmsg(12))}, opts...)...)
+	s := &sys{name: name}
 	s.state = func() []proto.Message { return []proto.Message{proto.Clone(v.Get())} }
 	set := func(name string, i int, opts ...resource.WriteOption) sop {
 		return sop{name: name, run: func(m *mon, _ context.Context) {
@@ -813,7 +822,7 @@ type pcase struct {
 
 func builders() map[string]func() *sys {
 	b := map[string]func() *sys{
-		"Value": valueSys, "Collection": collectionSys, "parentpb.Model": parentSys, "metadatapb.Model": metadataSys,
+		"Value": valueSys, "Value(equivalence)": valueEqSys, "Collection": collectionSys, "parentpb.Model": parentSys, "metadatapb.Model": metadataSys,
 		"enterleavesensorpb.Model": enterLeaveSys, "electricpb.Model": electricSys, "vendingpb.Model": vendingSys, "publicationpb.Model": publicationSys,
 		"openclosepb.Model(presets)": openCloseSys, "lightpb.Model(presets)": lightSys,
 		"electricpb.Model(active mode write-restricted)": electricRestrictedSys, "wastepb.Model": wasteSys,
@@ -856,7 +865,7 @@ func runPath(c pcase) (key, msg string, names []string) {
 		// to the resource: the stored state stays as it is. (Write RESULTS are left alone here.)
 		// (core resources only: on the trait models a read result can share sub-messages with the model's own
 		// configuration - light presets, waste records - which no write of the library touches; DESIGN, observations)
-		if m.key == "" && (c.Sys == "Value" || c.Sys == "Collection") {
+		if m.key == "" && (strings.HasPrefix(c.Sys, "Value") || c.Sys == "Collection") {
 			before := s.state()
 			for _, t := range m.items {
 				if strings.HasPrefix(t.origin, "Get") || strings.HasPrefix(t.origin, "List") || strings.HasPrefix(t.origin, "Pull") || strings.HasPrefix(t.origin, "Find") || strings.HasPrefix(t.origin, "ActiveMode") {
